@@ -63,22 +63,20 @@ Inductive c04_case :=
 Definition c04_check (c : c04_case) : bool * bool :=
   match c with
   | KSeq rs bytes impl =>
-      let model := fst (prod_decode bytes) in
+      let model := prod_decode_fast bytes in
       (nlist_eqb (concat (map print rs)) bytes && list_eqb tev_eqb model impl,
        (* property predicate: every well-formed self-delimiting report decodes to what it denotes *)
        negb (forallb prod_wf rs)
        || list_eqb2 (fun r ev => match r, ev with
-                                  (* faces: the reference SGR machine; with 7/27/39/49 (known finding)
-                                     exactly the recorded behaviour, decided here *)
-                                  | RSgr p, EFaceModify m =>
-                                      if sgr_inexpressible p then sgr_event_recorded p m else sgr_event_ok p m
+                                  (* faces: the reference SGR machine only; a report with 7/27/39/49 fails this on
+                                     the unchanged crate (known finding) and is suppressed by its class tag only when
+                                     the model -- proved equal to the recorded machine -- reproduces the implementation *)
+                                  | RSgr p, EFaceModify m => sgr_event_ok p m
                                   | RSgr _, _ => false
-                                  | RFaceReport p, _ =>
-                                      tev_eqb (if sgr_inexpressible p then face_report_recorded p else prod_denote r) ev
                                   | _, _ => tev_eqb (prod_denote r) ev
                                   end) rs impl)
   | KBytes bytes impl =>
-      (list_eqb tev_eqb (fst (prod_decode bytes)) impl, true)
+      (list_eqb tev_eqb (prod_decode_fast bytes) impl, true)
   end.
 
 Definition c04_report := SNT.Base.Report.report c04_check.
